@@ -1166,6 +1166,13 @@ pub fn run_thread<M: AlignMarker>(tid: usize, world: &'static World<M>, prog: &T
         tctx.op_base = prog.ops.len() as u32 + 1;
         let f: Box<dyn FnOnce()> = Box::new(move || {
             sim().fault("tls_api");
+            {
+                let sh = shadow();
+                if sh.tls_phase.len() <= tid {
+                    sh.tls_phase.resize(tid + 1, false);
+                }
+                sh.tls_phase[tid] = true;
+            }
             // guards that were leaked into TLS die with the thread: drop them first so that the
             // model and the participant agree, then run the destructor's own program
             tctx.exec_all(&tls_ops);
